@@ -25,7 +25,7 @@ RULE = ('plan = history of 5-16 steps by 2-3 clients over Create / '
         'killed before its k-th file-changing libc call (k seeded). '
         'Non-trivial: at least one destroy followed by a create with a '
         'restart in between. Distinct = digest of the trace.')
-PROBES = ['disk_error_inside_request', 'destroy_then_create', 'destroy_newest_then_create',
+PROBES = ['identifier_alias', 'disk_error_inside_request', 'destroy_then_create', 'destroy_newest_then_create',
           'restart_between_destroy_and_create', 'kill_restart',
           'kill_hit_inside_request', 'created_but_unacknowledged',
           'destroyed_but_unacknowledged', 'op_on_dead_id', 'all_destroyed']
@@ -42,6 +42,37 @@ ASSUMPTIONS = ['process death only (no power loss)',
 DEAD_OPS = ['Get', 'GetAttributes', 'GetAttributeList', 'Activate',
             'Revoke', 'Destroy', 'ModifyAttribute', 'DeleteAttribute',
             'Encrypt', 'MAC', 'DeriveKey', 'GetWrapped']
+
+
+ALIAS_FORMS = ['zero', 'plus', 'lead_blank', 'trail_blank', 'float',
+               'underscore', 'fullwidth', 'arabic', 'nbsp', 'exp']
+
+
+def spell(uid, form):
+    """Another spelling of a decimal identifier."""
+    if not uid.isdigit():
+        return uid
+    if form == 'zero':
+        return '0' + uid
+    if form == 'plus':
+        return '+' + uid
+    if form == 'lead_blank':
+        return ' ' + uid
+    if form == 'trail_blank':
+        return uid + ' '
+    if form == 'float':
+        return uid + '.0'
+    if form == 'exp':
+        return uid + 'e0'
+    if form == 'underscore':
+        return uid[0] + '_' + uid[1:] if len(uid) > 1 else '0_' + uid
+    if form == 'fullwidth':
+        return ''.join(chr(0xFF10 + int(ch)) for ch in uid)
+    if form == 'arabic':
+        return ''.join(chr(0x0660 + int(ch)) for ch in uid)
+    if form == 'nbsp':
+        return uid + u'\u00a0'
+    return uid
 
 
 def generate(rng, tier, index):
@@ -125,6 +156,18 @@ def generate(rng, tier, index):
             # destroy (the newest, usually) ...
             o = ctx.objs[-1] if r.random() < 0.6 else r.choice(ctx.objs)
             st = destroy(o)
+            if r.random() < 0.18:
+                # ... naming it by another spelling of its identifier
+                # (leading zero, sign, blanks, digit separators, non-ASCII
+                # digits): whichever object the server takes that to mean,
+                # an answer of Success means THAT object is gone
+                st['items'][0]['alias'] = r.choice(ALIAS_FORMS)
+                if r.random() < 0.5:
+                    # the generator cannot know whether the server accepts
+                    # the spelling: keep the object in its books
+                    pass
+                ctx.objs.append(o)
+                dead.remove(o)
         elif x < 0.61:
             # destroy everything
             for o in list(ctx.objs):
@@ -269,7 +312,13 @@ def execute(plan):
                 items = [] if acked is None or acked['resp'] is None \
                     else acked['resp']['items']
             else:
-                rq = st
+                rq = copy.deepcopy(st)
+                for op_ in rq['items']:
+                    if op_.get('alias') and op_.get('uid', '').startswith(
+                            '@'):
+                        op_['alias_canon'] = W.resolve(op_['uid'])
+                        op_['uid'] = spell(op_['alias_canon'], op_['alias'])
+                        probes['identifier_alias'] += 1
                 disk = st.get('disk')
                 if disk:
                     sh.arm(disk[0], disk[1], sticky=disk[2])
@@ -302,7 +351,7 @@ def execute(plan):
                         probes['destroy_newest_then_create'] += 1
                     last_destroyed_was_newest = False
                 if op['op'] == 'Destroy' and it['status'] == 0:
-                    uid = W.resolve(op['uid'])
+                    uid = op.get('alias_canon') or W.resolve(op['uid'])
                     if uid not in gone:
                         flag('destroy-reported-but-object-still-stored',
                              uid=uid, op='Destroy')
@@ -343,8 +392,9 @@ def execute(plan):
             if new_ids - reported:
                 probes['created_but_unacknowledged'] += 1
             for u in gone:
-                if not any(op['op'] == 'Destroy' and W.resolve(op['uid']) == u
-                           for op in rq['items']):
+                if not any(op['op'] == 'Destroy' and (
+                        op.get('alias_canon') or W.resolve(op['uid'])) == u
+                        for op in rq['items']):
                     flag('object-vanished-without-destroy', uid=u)
                 dead.add(u)
                 destroyed_since_restart = True
